@@ -128,6 +128,7 @@ var (
 )
 
 func legFor(name string) *legStats {
+	name += os.Getenv("VERIF_LEG_SUFFIX")
 	legsMu.Lock()
 	defer legsMu.Unlock()
 	l := legs[name]
@@ -314,7 +315,7 @@ func Replay(t *testing.T, leg string, interp func(steps []json.RawMessage) (sig,
 	if err := json.Unmarshal(b, &f); err != nil {
 		t.Fatalf("replay file: %v", err)
 	}
-	if f.Leg != leg {
+	if f.Leg != leg && f.Leg != leg+os.Getenv("VERIF_LEG_SUFFIX") {
 		t.Skip("other leg")
 	}
 	var sig, msg string
@@ -524,4 +525,29 @@ func (l *legStats) flushAs(shardLabel string) {
 	b, _ := json.Marshal(l)
 	_ = os.MkdirAll(out, 0o755)
 	_ = os.WriteFile(filepath.Join(out, fmt.Sprintf("%s.%s.stats.json", l.Leg, shardLabel)), b, 0o644)
+}
+
+// MakeFuzz turns a rapid property into a native fuzz target body (rapid.MakeFuzz) with statistics and a JSON
+// replay file written by the failing worker process (the driver picks it up from VERIF_OUT).
+func MakeFuzz(leg string, prop func(rt *rapid.T, rec *Rec)) func(*testing.T, []byte) {
+	return func(t *testing.T, input []byte) {
+		rec := FuzzRec(leg)
+		defer func() {
+			failMu.Lock()
+			f := lastFail
+			lastFail = nil
+			failMu.Unlock()
+			if f != nil {
+				f.Source = "native-fuzz"
+				p := writeReplay(f)
+				rec.leg.flushAs(rec.leg.Shard)
+				t.Logf("VIOLATION property=%s replay=%s sig=%s", f.Prop, p, f.Sig)
+			}
+		}()
+		rapid.MakeFuzz(func(rt *rapid.T) {
+			rec.Steps = nil
+			prop(rt, rec)
+		})(t, input)
+		rec.FuzzDone()
+	}
 }
